@@ -1,7 +1,7 @@
 """C08 - level-synchronous schedulers (structural clauses)."""
 import re
 
-from gsa.cfg import Fn, S, is_call, walk, lit
+from gsa.cfg import Fn, S, SC, is_call, walk, lit
 from gsa import rules as R
 from .common import executor_instances, FE, wl_name, split_targs
 
@@ -77,8 +77,10 @@ def bulk(ctx, fx):
         if len(flips) != 1:
             det.append("round flips: %d" % len(flips))
         else:
-            v = nrm(S(flips[0][1].get("rhs"), al))
-            if v != "((this.tlds.getLocal().round + 1) & 1)":
+            v = nrm(SC(flips[0][1].get("rhs"), al))      # operand order of & and + does not matter
+            if v not in ("(((this.tlds.getLocal().round + 1) & 1)", "((1 + this.tlds.getLocal().round) & 1)",
+                         "(1 & (1 + this.tlds.getLocal().round))", "(1 & (this.tlds.getLocal().round + 1))",
+                         "((this.tlds.getLocal().round + 1) & 1)"):
                 det.append("flip computes %s" % v)
         # holder of the pop result
         rlit = lambda t: S(t) == "r"
@@ -387,7 +389,15 @@ def obim(ctx, fx):
                 det.append("minimum is not taken with this->compare(o.curIndex, curIndex)")
             # hasWork accumulates every thread's flag
             acc = [e for _, e in fn.events(lambda e: e.get("k") == "assign" and e.get("lp") == "hasWork")]
-            if len(acc) != 1 or acc[0].get("op") != "|=" or not S(acc[0].get("rhs"), al).endswith(".hasWork"):
+            def accumulates(e):
+                r = e.get("rhs")
+                if e.get("op") == "|=":
+                    return S(r, al).endswith(".hasWork")
+                if e.get("op") == "=" and isinstance(r, dict) and r.get("k") == "bin" and r.get("op") in ("||", "|"):
+                    ops = [S(r["l"], al), S(r["r"], al)]
+                    return "hasWork" in ops and any(o.endswith(".hasWork") for o in ops)
+                return False
+            if len(acc) != 1 or not accumulates(acc[0]):
                 det.append("hasWork does not or-accumulate the remote flags")
             # after the second wait: own retarget from the agreed values on every path
             for fld, src in (("current", "C"), ("curIndex", "curIndex")):
